@@ -173,6 +173,13 @@ pub fn tamper_statement(
     if spec.is_null() {
         return st.clone();
     }
+    if let Some(list) = spec.as_array() {
+        let mut cur = st.clone();
+        for sp in list {
+            cur = tamper_statement(&cur, sp, n, x, idx);
+        }
+        return cur;
+    }
     let op = spec["op"].as_str().unwrap_or("");
     let mut commitments = st.commitments.clone();
     let mut promises = st.minimum_value_promises.clone();
